@@ -24,7 +24,7 @@ def main():
     ck.lean_stage(["VelaVerif.Props.C13"])
     n = 12000 if ck.thorough else 1200
     profiles = ["weird", "mixed", "cpu", "pattern", "lut", "pattern", "weights", "cascade", "weird", "pattern", "elementwise", "pattern"]
-    outs = pipe_common.run_corpus(ck, n, profiles=profiles, want={"more_opts": True}, corpus_first=False)
+    outs = pipe_common.run_corpus(ck, n, profiles=profiles, want={"more_opts": True}, corpus_first=False, sweep=True)
     reqs = []
     for o in outs:
         if "harness_exception" in o:
